@@ -6,8 +6,11 @@ import (
 	"go/token"
 	"go/types"
 	"os"
+	"rtpcheck/bounds"
+	"rtpcheck/lin"
 	"sort"
 	"strings"
+	"sync"
 
 	"golang.org/x/tools/go/ssa"
 
@@ -36,6 +39,38 @@ func c20(c *Ctx) {
 	}
 	r.Floor("reference paths checked in Clone results", n, 6)
 	r.Floor("clone coverage rows (K1 fields, K2 stores, K3 fresh slices)", nk, 14)
+	// equal lengths: every copy made by Clone fills a destination that is exactly as long as its source (a copy
+	// allocated with the source's capacity, or one element short, is not an equal copy); decided by the linear
+	// interpreter on every path, helpers included
+	var entries []*ssa.Function
+	for _, name := range []string{"rtp.(Packet).Clone", "rtp.(Header).Clone"} {
+		if fn := p.Func(name); fn != nil {
+			entries = append(entries, fn)
+		}
+	}
+	copies := 0
+	var mu sync.Mutex
+	boundsRun(c, entries, &bounds.Hooks{AtInstr: func(h *bounds.Helper, fn *ssa.Function, in ssa.Instruction, d *bounds.Disjunct) {
+		call, ok := in.(*ssa.Call)
+		if !ok || core.BuiltinName(call) != "copy" || len(call.Call.Args) != 2 {
+			return
+		}
+		mu.Lock()
+		copies++
+		mu.Unlock()
+		// a destination that is re-read from a slice element (ext[i].payload = make(...); copy(ext[i].payload, ...))
+		// is the value stored there a moment ago in the same block
+		ld, ls := d.Len(forwardLoad(call.Call.Args[0])), d.Len(call.Call.Args[1])
+		if ld == nil || ls == nil {
+			h.Oblige("the copy's destination is exactly as long as its source", false, "lengths not tracked")
+			return
+		}
+		q := lin.EQ(ld, ls)
+		h.Oblige("the copy's destination is exactly as long as its source", d.Entails(q...), d.Describe(q[0])+" ; "+d.Describe(q[1]))
+	}})
+	if copies == 0 {
+		r.Infof("CTR.clonelen: no copy() reached in Clone (element-wise copies are covered by STRUCT.clone K3 only)")
+	}
 }
 
 // deepCopyRule checks O4 on every return of fn and returns the number of reference paths seen.
@@ -523,4 +558,47 @@ func fieldDeprecated(p *core.Program, f *types.Var) bool {
 		return true
 	})
 	return dep
+}
+
+// forwardLoad: when v is a load whose address was stored to earlier in the same block (same base, index and
+// field values, no call or other store in between), the value stored; v otherwise.
+func forwardLoad(v ssa.Value) ssa.Value {
+	ld, ok := v.(*ssa.UnOp)
+	if !ok || ld.Op != token.MUL {
+		return v
+	}
+	var same func(a, b ssa.Value) bool
+	same = func(a, b ssa.Value) bool {
+		if a == b {
+			return true
+		}
+		switch x := a.(type) {
+		case *ssa.FieldAddr:
+			y, ok := b.(*ssa.FieldAddr)
+			return ok && x.Field == y.Field && same(x.X, y.X)
+		case *ssa.IndexAddr:
+			y, ok := b.(*ssa.IndexAddr)
+			return ok && x.X == y.X && x.Index == y.Index
+		}
+		return false
+	}
+	b := ld.Block()
+	idx := -1
+	for i, in := range b.Instrs {
+		if in == ssa.Instruction(ld) {
+			idx = i
+		}
+	}
+	for i := idx - 1; i >= 0; i-- {
+		switch x := b.Instrs[i].(type) {
+		case *ssa.Store:
+			if same(x.Addr, ld.X) {
+				return x.Val
+			}
+			return v
+		case *ssa.Call:
+			return v
+		}
+	}
+	return v
 }
